@@ -137,6 +137,7 @@ class UpdateLocationAnswer(UpdateLocation):
         self.header.is_request = False
         self.header.is_proxyable = True
 
+        setattr(self, "supported_features", [])
         setattr(self, "load", [])
         setattr(self, "reset_id", [])
         setattr(self, "failed_avp", [])
